@@ -16,7 +16,7 @@ import os
 import re
 import sys
 
-from rsscan import Source, ScanError, mask, find_loops, find_closures, match_close, first_at_depth0
+from rsscan import Source, ScanError, mask, find_loops, find_closures, match_close, first_at_depth0, top_statements
 
 
 class WeaveError(Exception):
@@ -113,6 +113,8 @@ def parse_spec(path):
                 flush()
                 if toks[1] == 'loop':
                     cur_sec = (head + '_loop', int(toks[2]), {})
+                elif toks[1] == 'top':
+                    cur_sec = (head + '_top', int(toks[2]), {})
                 else:
                     # @after "literal statement text"
                     lit = s[1:].split(None, 1)[1].strip()
@@ -211,7 +213,11 @@ def weave_fn(fs: FnSpec, text: str, sig_brace: int, shim_table):
         elif kind == 'end':
             lint_ghost_block(name, 'end', stext)
             # before a tail expression if there is one, else before the closing brace
-            edits.append((body_close, order, block(name, 'end', stext)))
+            tops = top_statements(m, sig_brace)
+            pos_end = body_close
+            if tops and not m[tops[-1][1] - 1] in ';}':
+                pos_end = tops[-1][0]
+            edits.append((pos_end, order, block(name, 'end', stext)))
         elif kind == 'loop':
             lp = need_loop(arg)
             if 'iter' in opts:
@@ -235,6 +241,13 @@ def weave_fn(fs: FnSpec, text: str, sig_brace: int, shim_table):
             lp = need_loop(arg)
             lint_ghost_block(name, 'after%d' % arg, stext)
             edits.append((lp['close'] + 1, order, block(name, 'after%d' % arg, stext)))
+        elif kind in ('after_top', 'before_top'):
+            tops = top_statements(m, sig_brace)
+            if arg < 1 or arg > len(tops):
+                raise WeaveError('lost anchor: %s has %d top-level statements, contract refers to statement %d' % (name, len(tops), arg))
+            lint_ghost_block(name, kind, stext)
+            a0, b0 = tops[arg - 1]
+            edits.append((b0 if kind == 'after_top' else a0, order, block(name, '%s%d' % (kind, arg), stext)))
         elif kind in ('after_stmt', 'before_stmt'):
             idx = text.find(arg, sig_brace)
             if idx < 0:
@@ -344,7 +357,7 @@ def build_unit(spec_path, repo, contracts_dir, shim_table):
         hdr, a, brace, b = s.fn_in_impl(impl_re, fs.name)
         text = s.text[a:b]
         if fs.extern:
-            sig = text[:brace - a].rstrip()
+            sig = text[:brace - a]
             secs = [t for (k, _, _, t) in fs.sections if k == 'sig']
             woven = '#[verifier::external_body]\n' + sig + block(fs.name, 'sig', secs[0] if secs else '') + \
                 shim_wrap('extern-body', text[brace - a:], '{ unimplemented!() }')
@@ -355,7 +368,8 @@ def build_unit(spec_path, repo, contracts_dir, shim_table):
             open('/tmp/weave_roundtrip_b.txt', 'w').write(text)
             raise WeaveError('round-trip mismatch in %s' % fs.name)
         roundtrip.append((rel, text))
-        fn_texts.append((fs, '//@FN< %s\n%s\n//@FN> %s\n' % (fs.name, woven, fs.name)))
+        spin = '' if fs.extern else '/*@w<*/#[verifier::spinoff_prover]/*@w>*/\n'
+        fn_texts.append((fs, '//@FN< %s\n%s%s\n//@FN> %s\n' % (fs.name, spin, woven, fs.name)))
         fn_info[fs.name] = dict(src=rel, line=s.lineno(a), impl=hdr, text=text, props=fs.props, extern=fs.extern,
                                 shims=fs.shims)
 
